@@ -617,7 +617,8 @@ func (this *BlockCompressor) Compress() (int, uint64) {
 
 		cancel <- true
 		close(cancel)
-		close(results)
+		// Do not close 'results': after an early exit, the workers still running
+		// a task deliver their result later (the channel can hold them all)
 	}
 
 	after := time.Now()
